@@ -36,7 +36,8 @@ REQUIRED_THEOREMS = [
     'C06_truncGauss_support_all_dims', 'C06_truncGauss_block_law', 'C06_truncGauss_untruncated_counterexample',
     'C06_composed_delta_support', 'C06_composed_pooled_support', 'C06_composed_hetero_support',
     'C06_composed_delta_part_zero', 'C06_composed_sampled_pooled_scored', 'C06_composed_sampled_hetero_row',
-    'C06_composed_skip_counterexample']
+    'C06_composed_skip_counterexample', 'C06_fillMask_overwrite', 'C06_reduced_history_free',
+    'C06_reduced_history_buffer_fixed', 'C06_reduced_stale_counterexample']
 RULE = ('exact replay: (a) the four error models and ReducedErrorModel, n_times 1..6, n_samples None/1..5, '
         'int seed and Generator seed (two consecutive calls on one Generator); (b) elementary population '
         'models (Gaussian / LogNormal centred and not, TruncatedGaussian, Pooled, Heterogeneous) n_dim 1..3, '
@@ -53,6 +54,14 @@ RULE = ('exact replay: (a) the four error models and ReducedErrorModel, n_times 
         'two heterogeneous individuals swapped, a pooled / heterogeneous parameter (free or fixed) moved, one '
         'entry of a Gaussian / log-normal / truncated part moved inside and outside its support — chi\'s '
         'log-likelihood against the documented product density and against the Lean model (C06.pop.score). '
+        'ABSOLUTE scale regimes as a regular class for every kind (error models, every elementary population '
+        'model, bare / covariate-wrapped / composed / reduced): noise or spread <= 1e-3 and >= 1e3 in absolute '
+        'units, a whole dimension in tiny / huge units, next to dimensions on the ordinary scale — the model\'s '
+        'own samples scored by its own log-likelihood against the documented density (finite). '
+        'Call HISTORIES on one ReducedPopulationModel with fixed parameters around a model with a transform of '
+        'its own (non-centred, bare / covariate / composed): transform, score and sampler at free parameters '
+        'that differ from those of the preceding calls (sample, score, sensitivities, transform, a second '
+        'fix_parameters, or no call at all) against the documented formulas at the CURRENT parameters. '
         'non-trivial = n_times>=2 and n_samples>=2 (error models), n_dim>=2 or >=2 sub-models or a '
         'covariate model (population models); distinct = distinct (class, sizes, seed kind)')
 ASSUMPTIONS = [
@@ -232,6 +241,22 @@ def gen_em_case(rng):
     elif r < 0.14:
         sig = np.append(sig, 1.0)
         cls = 'n_params'
+    elif r < 0.30:
+        # absolute scale regimes: noise (and, half of the time, the model output with it) on a tiny / huge
+        # numerical scale; relative / log-scale noise parameters tiny or large
+        cls = 'scale-' + ['tiny', 'huge'][int(rng.integers(2))]
+        tiny = cls == 'scale-tiny'
+        u = 10.0 ** float(rng.uniform(-9.0, -3.3) if tiny else rng.uniform(3.0, 9.0))
+        rel = 10.0 ** float(rng.uniform(-6.0, -3.05)) if tiny else float(rng.uniform(2.0, 5.0))
+        if rng.random() < 0.5:
+            yb = yb * u
+        if m == 'G':
+            sig = sig * u
+        elif m == 'CM':
+            sig = np.array([sig[0] * u, sig[1] * rel if rng.random() < 0.5 else sig[1]])
+        else:
+            sig = sig * rel if m == 'LN' else sig * (rel if tiny else u)
+        return m, sig, yb, n, cls
     if rng.random() < 0.1:
         yb[int(rng.integers(nT))] = float(rng.choice([0.0, -1.5]))
         cls += '+ybar<=0'
@@ -243,6 +268,15 @@ def em_model(ctx, m, sig, yb, n, gen):
     z = gen.standard_normal(nd)
     return ctx.model('C06.em.sample', m, list(map(float, sig)), list(map(float, yb)), n,
                      [float(v) for v in z])[0], nd
+
+
+def em_documented_logpdf(m, sig, yb, x):
+    """log-density of one series of measurements as the error models document it"""
+    with np.errstate(all='ignore'):
+        if m == 'LN':
+            return float(np.sum(stats.norm.logpdf(np.log(x), np.log(yb) - sig[0] ** 2 / 2, sig[0]) - np.log(x)))
+        sd = {'G': sig[0] + 0 * yb, 'M': sig[0] * yb, 'CM': sig[0] + sig[-1] * yb}[m]
+        return float(np.sum(stats.norm.logpdf(x, yb, sd)))
 
 
 def run_em_case(ctx, chi, rng, i):
@@ -268,8 +302,18 @@ def run_em_case(ctx, chi, rng, i):
     if cls.startswith('sigma<0') and len(yb) > 0:
         outside_support(ctx, EM_TAG[m], c,
                         lambda x: em.compute_log_likelihood(list(sig), yb, x[:, 0]), inp)
-    if cls in ('inside', 'sigma=0', 'inside+ybar<=0'):
+    if cls in ('inside', 'sigma=0', 'inside+ybar<=0') or cls.startswith('scale-'):
         ctx.spec('C06.sampling_succeeds/' + EM_TAG[m], not isinstance(c, str), inp, {'chi': c if isinstance(c, str) else 'ok'})
+    if (cls == 'inside' or cls.startswith('scale-')) and not isinstance(c, str) \
+            and np.asarray(c).shape == (len(yb), nS):
+        # the model's own samples are inside the scored support: their score is the documented log-density
+        # (finite), on every absolute scale
+        x = np.asarray(c, float)[:, int(rng.integers(nS))]
+        got = call(lambda: float(em.compute_log_likelihood(np.array(sig, float), np.array(yb, float), x.copy())))
+        want = em_documented_logpdf(m, np.asarray(sig, float), np.asarray(yb, float), x)
+        ctx.spec('C06.own_samples_scored/' + EM_TAG[m] + ('/' + cls if cls != 'inside' else ''),
+                 not isinstance(got, str) and math.isfinite(want) and core.close(got, want, rtol=1e-8, atol=1e-9),
+                 inp, {'samples': x, 'chi_log_likelihood_of_its_own_samples': got, 'documented_log_density': want})
     # a Generator passed as seed is advanced, not restarted: two consecutive calls
     if i % 3 == 0 and cls in ('inside', 'sigma=0'):
         m2, sig2, yb2, n2, _ = gen_em_case(rng)
@@ -412,6 +456,56 @@ def gen_mixed_params(rng, kind, n_dim, n_ids, first=None):
     return np.array([m for m, _ in ms] + [sd for _, sd in ms]), chosen
 
 
+# ABSOLUTE scale regimes (seeded change C06-16): a parameter that lives on a tiny / huge numerical scale
+# (a rate constant of 2e-3 with a standard deviation of 5e-4, a count of 1e7), or a nearly vanishing / very
+# large inter-individual variability. No density the property speaks of has a threshold in absolute units:
+# the model's own samples are inside the scored support and their score is the documented log-density
+# (Lean: C06_pop_gaussian_scored, C06_pop_lognormal_scored, C06_truncGauss_scored hold for every sigma > 0).
+SCALES = ['tiny', 'huge']
+
+
+def scale_dim(rng, fam, regime):
+    """(mu, sd) of one dimension in an absolute scale regime; |mu| / sd stays <= ~1e5 so that the
+    reference density is accurate to far better than the comparison tolerance"""
+    if regime == 'unit':
+        return regime_dim(rng, fam, BASE_REGIME[fam])
+    e = float(rng.uniform(-9.0, -3.3)) if regime == 'tiny' else float(rng.uniform(3.0, 9.0))
+    u = 10.0 ** e
+    whole = rng.random() < 0.6                       # the whole dimension in other units / only the spread
+    if fam == 'G':
+        mu, sd = float(rng.uniform(-2.0, 3.0)), float(rng.uniform(0.2, 2.0))
+        if whole:
+            return mu * u, sd * u
+        return mu, (10.0 ** float(rng.uniform(-5.0, -3.05)) if regime == 'tiny' else u)
+    if fam == 'T':
+        mu, sd = float(rng.uniform(-0.5, 2.0)), float(rng.uniform(0.4, 1.5))
+        if whole:
+            return mu * u, sd * u
+        if regime == 'tiny':
+            return float(rng.uniform(0.5, 3.0)), 10.0 ** float(rng.uniform(-4.5, -3.05))
+        return mu, u
+    # log-normal: log-scale spread tiny / large, or the median exp(mu) on a tiny / huge absolute scale
+    if whole:
+        mu = float(rng.uniform(8.0, 25.0))
+        return (-mu if regime == 'tiny' else mu), float(rng.uniform(0.15, 0.6))
+    mu = float(rng.uniform(-0.5, 1.0))
+    return mu, (10.0 ** float(rng.uniform(-6.0, -3.05)) if regime == 'tiny' else float(rng.uniform(2.0, 6.0)))
+
+
+def gen_scale_params(rng, kind, n_dim, n_ids, scale):
+    """population parameters (flat layout) with at least one dimension in the absolute scale regime
+    `scale`; the other dimensions in `scale`, the opposite regime or on the ordinary scale"""
+    if kind in ('P', 'H'):
+        k = n_dim if kind == 'P' else n_ids * n_dim
+        e = rng.uniform(-9.0, -3.3, k) if scale == 'tiny' else rng.uniform(3.0, 9.0, k)
+        return 10.0 ** e, [scale] * n_dim
+    other = [r for r in SCALES if r != scale][0]
+    chosen = [scale] + [[scale, 'unit', other][int(rng.integers(3))] for _ in range(n_dim - 1)]
+    chosen = [chosen[int(j)] for j in rng.permutation(n_dim)]
+    ms = [scale_dim(rng, kind[0], r) for r in chosen]
+    return np.array([m for m, _ in ms] + [sd for _, sd in ms]), chosen
+
+
 class Sub:
     """one sub-model: chi object + the description the Lean model takes"""
 
@@ -452,8 +546,19 @@ class Sub:
         self.regimes = None
         return self
 
-    def gen_params(self, rng, mixed=False):
+    def gen_params(self, rng, mixed=False, scale=None):
         self.regimes = None
+        if scale:
+            p, self.regimes = gen_scale_params(rng, self.kind, self.n_dim, self.n_ids, scale)
+            if self.n_cov > 0:
+                # covariate shifts in the units of the shifted parameter's own dimension (covariates in
+                # [-1, 1], <= 2 of them: the scale stays >= 0.6 of its value)
+                beta = []
+                for pi, di in self.sel:
+                    unit = p[self.n_dim + di] if self.kind not in ('P', 'H') else abs(p[pi * self.n_dim + di])
+                    beta += [float(v) * float(unit) for v in rng.uniform(-0.2, 0.2, self.n_cov)]
+                p = np.concatenate([p, beta])
+            return p
         if mixed:
             p, self.regimes = gen_mixed_params(rng, self.kind, self.n_dim, self.n_ids)
         else:
@@ -605,7 +710,7 @@ def joint_score_check(ctx, chi, mode, obj, subs, params, params0, cov, cov_rows,
     got = call(lambda: chi_ll(obj, mode, params, x, cov, len(x)))
     if inp.get('class') != 'inside':
         return
-    ctx.spec('C06.joint_score_of_samples/' + mode,
+    ctx.spec('C06.joint_score_of_samples/' + mode + ('/scale-' + inp['scale'] if inp.get('scale') else ''),
              not isinstance(got, str) and core.close(got, want, rtol=1e-8, atol=1e-9), inp,
              {'samples': as_rows(x), 'chi_log_likelihood_of_the_sampled_rows': got,
               'log_density_of_the_sampled_law': want})
@@ -798,7 +903,7 @@ def psi_check(ctx, chi, mode, obj, subs, n_ids, params, params0, cov, cov_rows, 
         ctx.spec('C06.sample_then_transform/HeterogeneousModel/n_samples=n_ids', ok, inp, detail)
 
 
-def run_pop_case(ctx, chi, rng, i):
+def run_pop_case(ctx, chi, rng, i, scale=None):
     mode = ['elem', 'elem', 'cov', 'composed', 'composed'][int(rng.integers(5))]
     n_ids = int(rng.integers(1, 5))
     n = [None, 1, 2, 3, 4][int(rng.integers(5))]
@@ -828,10 +933,12 @@ def run_pop_case(ctx, chi, rng, i):
         nS = 1
     # every third case: the dimensions of each sub-model in different scale regimes
     mixed = rng.random() < 0.34
-    params = np.concatenate([s.gen_params(rng, mixed) for s in subs])
+    params = np.concatenate([s.gen_params(rng, mixed, scale) for s in subs])
     cls = 'inside'
     r = rng.random()
-    if r < 0.07:
+    if scale:
+        mixed = False      # (the absolute scale regimes: parameters inside the support only)
+    elif r < 0.07:
         # a negative / zero scale in one sub-model with a scale parameter
         cand = [j for j, s in enumerate(subs) if s.kind in ('Gc', 'Gn', 'Lc', 'Ln', 'T')]
         if cand:
@@ -857,11 +964,13 @@ def run_pop_case(ctx, chi, rng, i):
     inp = {'mode': mode, 'subs': [s.wire() for s in subs], 'n_ids': n_ids, 'n_samples': n,
            'parameters': params0, 'covariates': cov_rows, 'seed': seed, 'class': cls}
     nontriv = (mode != 'elem' and (len(subs) >= 2 or n_cov_tot > 0)) or subs[0].n_dim >= 2
-    if mixed:
+    if mixed or scale:
         inp['regimes'] = [s.regimes for s in subs]
-    ctx.case('pop/%s/%s%s' % (mode, cls, '/mixed-regimes' if mixed else ''),
-             nontrivial=('pop/%s/nS%s/%s%s' % (label, n, cls, '/mixed' if mixed else '')) if nontriv else False,
-             sample=inp)
+    if scale:
+        inp['scale'] = scale
+    ctx.case('pop/%s/%s%s' % (mode, cls, '/mixed-regimes' if mixed else ('/scale-' + scale if scale else '')),
+             nontrivial=('pop/%s/nS%s/%s%s' % (label, n, cls, '/mixed' if mixed else ('/' + scale if scale else '')))
+             if nontriv else False, sample=inp)
     chi_params = params
     if mode == 'elem' and cls != 'n_params' and rng.random() < 0.3:
         # documented alternative layout (p_per_dim, n_dim)
@@ -938,7 +1047,8 @@ def run_reduced_pop(ctx, chi, rng):
     base.set_n_ids(n_ids)
     red = chi.ReducedPopulationModel(base)
     names = red.get_parameter_names()
-    full = np.concatenate([s.gen_params(rng, rng.random() < 0.34) for s in subs])
+    scale = SCALES[int(rng.integers(2))] if rng.random() < 0.3 else None
+    full = np.concatenate([s.gen_params(rng, rng.random() < 0.34, scale) for s in subs])
     if len(set(names)) != len(names):
         return
     mask = [bool(rng.random() < 0.4) for _ in names]
@@ -950,6 +1060,8 @@ def run_reduced_pop(ctx, chi, rng):
     seed = int(rng.integers(0, 2 ** 31))
     inp = {'model': 'ReducedPopulationModel', 'subs': [s.wire() for s in subs], 'n_ids': n_ids,
            'mask': mask, 'values': full, 'free': free, 'n_samples': n, 'seed': seed}
+    if scale:
+        inp['scale'] = scale
     c = call(lambda: red.sample(np.array(free), n_samples=n, seed=seed))
     filled = ctx.model('C06.reduced', mask if any(mask) else None, [float(v) for v in full], free)[0]
     mo, _ = pop_model(ctx, 'composed', subs, n_ids, n, filled, [], seed, np.random.default_rng(seed), False)
@@ -975,6 +1087,166 @@ def run_reduced_pop(ctx, chi, rng):
     scored_support(ctx, rng, 'composed', subs, n_ids, np.array(full, float), [], rows, inp, red_score)
     if fixed:
         red.fix_parameters(fixed)
+
+
+def fill_mask(mask, values, free):
+    """executable spec of a reduced model's parameter vector: the fixed value at a fixed position, the free
+    values of THIS call, in order, elsewhere (Lean: fillMask, C06_reduced_fill; after any call history: C06_reduced_history_free)"""
+    it = iter(free)
+    return np.array([float(v) if b else float(next(it)) for v, b in zip(values, mask)], float)
+
+
+def run_reduced_history(ctx, chi, rng):
+    """call HISTORIES on one ReducedPopulationModel with fixed parameters (seeded change C06-15): every call
+    — compute_individual_parameters above all, also compute_log_likelihood and sample — works with the fixed
+    values and the free parameters of THAT call, whatever the previous calls on the same object were given
+    (the same eta transformed under several population parameters, a score / sample / sensitivities at other
+    parameters in between, a fixed value changed by a second fix_parameters, the first call after
+    fix_parameters). The wrapped model has at least one part with a transform of its own (non-centred
+    Gaussian / log-normal, bare, covariate-wrapped or inside a composed model).
+    Reference: the documented transform / product density at `fill_mask(mask, values, free)`; correspondence:
+    the Lean model's transform (C06.pop.psi) at the filled vector (C06.reduced.history)."""
+    n_ids = int(rng.integers(1, 4))
+    shape = ['elem', 'elem', 'cov', 'composed', 'composed'][int(rng.integers(5))]
+    nc = ['Gn', 'Ln'][int(rng.integers(2))]
+    if shape == 'elem':
+        subs = [Sub(chi, rng, nc, int(rng.integers(1, 3)), n_ids, 0)]
+    elif shape == 'cov':
+        subs = [Sub(chi, rng, nc, int(rng.integers(1, 3)), n_ids, int(rng.integers(1, 3)),
+                    partial_sel=rng.random() < 0.5)]
+    else:
+        kinds = [nc] + [['Gc', 'Gn', 'Lc', 'Ln', 'T', 'P'][int(rng.integers(6))]
+                        for _ in range(int(rng.integers(0, 3)))]
+        kinds = [kinds[int(j)] for j in rng.permutation(len(kinds))]
+        subs = [Sub(chi, rng, k, int(rng.integers(1, 3)), n_ids,
+                    int(rng.integers(1, 3)) if rng.random() < 0.3 else 0, partial_sel=rng.random() < 0.5)
+                for k in kinds]
+    mode = shape
+    if mode == 'composed':
+        base = chi.ComposedPopulationModel([s.obj for s in subs])
+        base.set_n_ids(n_ids)
+    else:
+        base = subs[0].obj
+    red = chi.ReducedPopulationModel(base)
+    names = red.get_parameter_names()
+    if len(set(names)) != len(names):
+        return
+    k = len(names)
+    mask = [bool(rng.random() < 0.45) for _ in names]
+    if all(mask) or not any(mask):
+        j = int(rng.integers(k))
+        mask = [not mask[q] if q == j else mask[q] for q in range(k)]
+    if all(mask) or not any(mask):
+        return
+
+    def draw():
+        return np.concatenate([s.gen_params(rng) for s in subs])
+    values = draw()
+    red.fix_parameters({nm: float(v) for nm, v, b in zip(names, values, mask) if b})
+    n_cov = sum(s.n_cov for s in subs)
+    m = int(rng.integers(1, 5))
+    cov, cov_rows = gen_cov(rng, n_cov, m)
+    cvf = None if cov is None else np.broadcast_to(np.atleast_2d(cov), (m, n_cov)).copy()
+
+    def extra():
+        # covariates as the wrapped model's entry point takes them
+        if cvf is None:
+            return (), {}
+        return ((), {'covariates': cvf}) if mode == 'composed' else ((cvf,), {})
+
+    skw = {} if cvf is None else {'covariates': cvf}     # (the sampler takes the covariates by keyword)
+
+    def free_of(full):
+        return np.array([float(v) for v, b in zip(full, mask) if not b], float)
+    history = []
+    frees = []           # the free parameters of the calls since the last fix_parameters (Lean: reducedCall)
+    values_at_fix = values.copy()
+    seed = int(rng.integers(0, 2 ** 31))
+    wire = [s.wire() for s in subs]
+    # eta: drawn by the model itself at some free parameters, or (first call after fix_parameters) given
+    if rng.random() < 0.6:
+        th = draw()
+        a, kw = extra()
+        eta = call(lambda: red.sample(free_of(th), m, seed, **skw))
+        history.append(['sample', [float(v) for v in free_of(th)]])
+        frees.append([float(v) for v in free_of(th)])
+        if isinstance(eta, str):
+            return
+        eta = np.asarray(eta, float)
+    else:
+        eta = rng.standard_normal((m, sum(s.n_dim for s in subs)))
+        col = 0
+        for s in subs:
+            if s.kind in ('Lc', 'T'):
+                eta[:, col:col + s.n_dim] = np.abs(eta[:, col:col + s.n_dim]) + 0.1
+            col += s.n_dim
+    if eta.shape != (m, sum(s.n_dim for s in subs)):
+        return
+    label = shape + '/' + '+'.join(s.kind + ('c%d' % s.n_cov if s.n_cov else '') for s in subs)
+    for step in range(int(rng.integers(2, 5))):
+        # something else happens on the object at OTHER free parameters ...
+        op = ['none', 'score', 'sample', 'sensitivities', 'transform', 'refix'][int(rng.integers(6))]
+        other = draw()
+        a, kw = extra()
+        if op == 'score':
+            call(lambda: red.compute_log_likelihood(free_of(other), eta.copy(), *a, **kw))
+        elif op == 'sample':
+            call(lambda: red.sample(free_of(other), m, seed + 1, **skw))
+        elif op == 'sensitivities':
+            call(lambda: red.compute_sensitivities(free_of(other), eta.copy(), *a, **kw))
+        elif op == 'transform':
+            call(lambda: red.compute_individual_parameters(free_of(other), eta.copy(), *a, **kw))
+        elif op == 'refix':
+            # a fixed value is changed by a second fix_parameters (same names stay fixed)
+            values = np.where(mask, other, values)
+            red.fix_parameters({nm: float(v) for nm, v, b in zip(names, values, mask) if b})
+            frees, values_at_fix = [], values.copy()
+        elif op != 'none':
+            frees.append([float(v) for v in free_of(other)])
+        history.append([op, [float(v) for v in (values if op == 'refix' else free_of(other))]])
+        # ... then the model's own transform / score / sampler at the CURRENT free parameters
+        cur = draw()
+        free = free_of(cur)
+        filled = fill_mask(mask, values, free)
+        inp = {'model': 'ReducedPopulationModel', 'wrapped': label, 'subs': wire, 'n_ids': n_ids, 'mask': mask,
+               'fixed_values': [float(v) for v, b in zip(values, mask) if b], 'free_parameters_of_this_call': free,
+               'calls_before_on_the_same_object': [list(h) for h in history], 'eta': as_rows(eta),
+               'covariates': cov_rows, 'class': 'inside'}
+        ths = documented_rows(subs, filled, cov_rows, m)
+        what = ['transform', 'transform', 'score', 'sample'][int(rng.integers(4))]
+        if what == 'transform':
+            c = call(lambda: red.compute_individual_parameters(free.copy(), eta.copy(), *a, **kw))
+            want = documented_psi(subs, ths, eta)
+            ctx.spec('C06.reduced_history/transform_at_current_parameters',
+                     not isinstance(c, str) and core.close(as_rows(c), as_rows(want)), inp,
+                     {'after_compute_individual_parameters': as_rows(c),
+                      'documented_transform_at_the_filled_in_parameters': as_rows(want),
+                      'filled_in_parameters': filled})
+            rows = cov_rows if len(cov_rows) != 1 else cov_rows * m
+            handed = ctx.model('C06.reduced.history', mask, [float(v) for v in values_at_fix], frees,
+                               [float(v) for v in free])[0]
+            mo = ctx.model('C06.pop.psi', mode, wire, n_ids, [float(v) for v in handed],
+                           [[float(v) for v in r] for r in rows], as_rows(eta), 'repaired')[0]
+            ctx.agree('C06.pop.psi/reduced-history', as_rows(c), mo, inp)
+        elif what == 'score':
+            got = call(lambda: float(red.compute_log_likelihood(free.copy(), eta.copy(), *a, **kw)))
+            want = documented_joint_logpdf(subs, ths, eta)
+            if want is not None and not math.isnan(want):
+                ctx.spec('C06.reduced_history/score_at_current_parameters',
+                         not isinstance(got, str) and core.close(got, want, rtol=1e-8, atol=1e-9), inp,
+                         {'chi_log_likelihood': got, 'log_of_the_product_density_at_the_filled_in_parameters': want})
+        else:
+            c = call(lambda: red.sample(free.copy(), m, seed + 2, **skw))
+            mo, _ = pop_model(ctx, mode, subs, n_ids, m, filled, cov_rows, seed + 2,
+                              np.random.default_rng(seed + 2), False)
+            # the exact-replay reference (the harness's own primitive draws through the Lean transformation)
+            ctx.spec('C06.reduced_history/sample_at_current_parameters',
+                     not isinstance(c, str) and not isinstance(mo, str) and core.close(as_rows(c), mo), inp,
+                     {'chi': as_rows(c), 'replayed_at_the_filled_in_parameters': mo})
+        history.append([what, [float(v) for v in free]])
+        frees.append([float(v) for v in free])
+        ctx.case('pop/reduced-history/' + what,
+                 nontrivial='pop/reduced-history/%s/%s/%s/%s' % (label, mask, op, what))
 
 
 # ----------------------------------------------------------------------------------------
@@ -1551,14 +1823,89 @@ def run(ctx):
         ctx.guard(run_reduced_em, ctx, chi, ctx.sub_rng(100000 + i))
     for i in range(450 if quick else 12000):
         ctx.guard(run_pop_case, ctx, chi, ctx.sub_rng(200000 + i), i)
+    for i in range(110 if quick else 3000):
+        ctx.guard(run_pop_case, ctx, chi, ctx.sub_rng(250000 + i), i, SCALES[i % 2])
     for i in range(50 if quick else 800):
         ctx.guard(run_reduced_pop, ctx, chi, ctx.sub_rng(300000 + i))
+    for i in range(60 if quick else 1500):
+        ctx.guard(run_reduced_history, ctx, chi, ctx.sub_rng(350000 + i))
     for i in range(12 if quick else 300):
         ctx.guard(run_moments, ctx, chi, ctx.sub_rng(400000 + i), 1)
     n = 20000 if quick else 100000
     em_law(ctx, chi, ctx.sub_rng(500000), n, 8 if quick else 64)
     pop_law(ctx, chi, ctx.sub_rng(600000), n, 4 if quick else 16)
     composed_law(ctx, chi, ctx.sub_rng(700000), n, 6 if quick else 48)
+
+
+def replay_reduced_history(chi, tag, inp):
+    """re-runs a recorded call history on a fresh ReducedPopulationModel, then the recorded call"""
+    n_ids = int(inp['n_ids'])
+    subs = [Sub.from_wire(chi, w, n_ids) for w in inp['subs']]
+    mode = inp['wrapped'].split('/')[0]
+    base = subs[0].obj
+    if mode == 'composed':
+        base = chi.ComposedPopulationModel([sm.obj for sm in subs])
+        base.set_n_ids(n_ids)
+    red = chi.ReducedPopulationModel(base)
+    names = red.get_parameter_names()
+    mask = [bool(b) for b in inp['mask']]
+    eta = np.array(inp['eta'], float)
+    m = len(eta)
+    cov_rows = inp.get('covariates') or []
+    cvf = None
+    if cov_rows:
+        cvf = np.broadcast_to(np.array(cov_rows, float), (m, len(cov_rows[0]))).copy()
+    a, kw = (), {}
+    if cvf is not None:
+        a, kw = ((), {'covariates': cvf}) if mode == 'composed' else ((cvf,), {})
+    skw = {} if cvf is None else {'covariates': cvf}
+    fixed_names = [nm for nm, b in zip(names, mask) if b]
+    hist = inp['calls_before_on_the_same_object']
+    # the fixed values before the first recorded `refix` are not part of the record: any values do
+    first = next((h[1] for h in hist if h[0] == 'refix'), None)
+    values = np.array(first, float) if first is not None else fill_mask(
+        [not b for b in mask], np.zeros(len(mask)), inp['fixed_values'])
+    red.fix_parameters({nm: float(v) for nm, v, b in zip(names, values, mask) if b})
+    for op, p in hist:
+        p = np.array(p, float)
+        if op == 'refix':
+            values = p
+            red.fix_parameters({nm: float(v) for nm, v, b in zip(names, values, mask) if b})
+        elif op == 'sample':
+            call(lambda: red.sample(p, m, 1, **skw))
+        elif op == 'score':
+            call(lambda: red.compute_log_likelihood(p, eta.copy(), *a, **kw))
+        elif op == 'sensitivities':
+            call(lambda: red.compute_sensitivities(p, eta.copy(), *a, **kw))
+        elif op == 'transform':
+            call(lambda: red.compute_individual_parameters(p, eta.copy(), *a, **kw))
+    values = fill_mask([not b for b in mask], np.zeros(len(mask)), inp['fixed_values'])
+    red.fix_parameters({nm: float(v) for nm, v in zip(fixed_names, inp['fixed_values'])})
+    free = np.array(inp['free_parameters_of_this_call'], float)
+    filled = fill_mask(mask, values, free)
+    ths = documented_rows(subs, filled, cov_rows, m)
+    print('history on the object:', [h[0] for h in hist])
+    if tag.endswith('transform_at_current_parameters'):
+        c = call(lambda: red.compute_individual_parameters(free.copy(), eta.copy(), *a, **kw))
+        want = documented_psi(subs, ths, eta)
+        print('chi   : compute_individual_parameters(free, eta):', as_rows(c))
+        print('spec  : documented transform at the filled-in parameters:', as_rows(want))
+        ok = not isinstance(c, str) and core.close(as_rows(c), as_rows(want))
+    elif tag.endswith('score_at_current_parameters'):
+        c = call(lambda: float(red.compute_log_likelihood(free.copy(), eta.copy(), *a, **kw)))
+        want = documented_joint_logpdf(subs, ths, eta)
+        print('chi   : compute_log_likelihood(free, eta):', c)
+        print('spec  : log of the product density at the filled-in parameters:', want)
+        ok = not isinstance(c, str) and core.close(c, want, rtol=1e-8, atol=1e-9)
+    else:
+        seed = 5
+        c = call(lambda: red.sample(free.copy(), m, seed, **skw))
+        d = call(lambda: base.sample(filled.copy(), n_samples=m, seed=seed, **skw))
+        print('chi   : reduced.sample(free):', as_rows(c))
+        print('fresh : wrapped.sample(filled-in parameters):', as_rows(d))
+        ok = not isinstance(c, str) and not isinstance(d, str) and np.array_equal(c, d)
+    print('the reduced model %s the parameters of the current call on this tree' % ('USES' if ok else 'DOES NOT USE'))
+    return 0 if ok else 1
 
 
 def replay(ctx, data):
@@ -1617,6 +1964,27 @@ def replay(ctx, data):
         print('spec  : log of the product of the sub-model densities there            :', want)
         ok = not isinstance(got, str) and core.close(got, want, rtol=1e-8, atol=1e-9)
         print('the scored density %s the product density on this tree' % ('IS' if ok else 'IS NOT'))
+        return 0 if ok else 1
+    if tag.startswith('C06.reduced_history/'):
+        return replay_reduced_history(chi, tag, inp)
+    if tag.startswith('C06.joint_score_of_samples/') and 'subs' in inp and 'samples' in (bad.get('detail') or {}):
+        n_ids = int(inp['n_ids'])
+        subs = [Sub.from_wire(chi, w, n_ids) for w in inp['subs']]
+        mode = inp['mode']
+        obj = subs[0].obj
+        if mode == 'composed':
+            obj = chi.ComposedPopulationModel([sm.obj for sm in subs])
+            obj.set_n_ids(n_ids)
+        p = np.array(inp['parameters'], float)
+        xx = np.array(bad['detail']['samples'], float)
+        cov_rows = inp.get('covariates') or []
+        cov = np.array(cov_rows, float) if cov_rows else None
+        got = call(lambda: chi_ll(obj, mode, p, xx, cov, len(xx)))
+        want = documented_joint_logpdf(subs, documented_rows(subs, p, cov_rows, len(xx)), xx)
+        print('chi   : compute_log_likelihood of the recorded samples at the recorded parameters:', got)
+        print('spec  : log-density of the law the rows were drawn from                         :', want)
+        ok = not isinstance(got, str) and core.close(got, want, rtol=1e-8, atol=1e-9)
+        print('the model\'s own samples %s scored with the sampled density on this tree' % ('ARE' if ok else 'ARE NOT'))
         return 0 if ok else 1
     model = inp.get('model', '')
     rev = {v: k for k, v in EM_TAG.items()}
